@@ -487,6 +487,21 @@ pub fn run(ctx: Ctx) -> i32 {
             })
             .reduce(Stats::default, |a, b| a.merge(b)),
     );
+    // 2b. case folding: letters whose case-insensitive matches include characters with a longer
+    // UTF-8 encoding (k ~ KELVIN SIGN, s ~ LONG S): longest match is measured in the input, not in
+    // the pattern
+    let cspecs: Vec<LSpec> = plain_specs(&["k", "ks", "[a-z]", "s"], 2, true).into_iter().filter(|s| s.dot_matches_new_line && s.multi_line).collect();
+    let cinputs = strings(&["k", "s", "\u{212a}", "\u{17f}", "a"], if ctx.quick() { 3 } else { 4 });
+    total = total.merge(
+        cspecs
+            .par_iter()
+            .map(|s| {
+                let mut st = Stats::default();
+                check_spec(&ctx, s, &cinputs, false, &mut st);
+                st
+            })
+            .reduce(Stats::default, |a, b| a.merge(b)),
+    );
     // 3. start states
     let sspecs = state_specs(nstate_rules);
     let sinputs = strings(&["a", "b"], nstate_inp);
